@@ -90,7 +90,7 @@ def build_script(cfg):
         seq.append((name, code, t, w))
 
     add('banner', '220')
-    exts = ['mx', '8BITMIME'] + (['PIPELINING'] if cfg['pipelining'] else [])
+    exts = ['mx', '8BITMIME'] + (['PIPELINING'] if cfg['pipelining'] else []) + (['SIZE 100'] if cfg.get('size') else [])
     hello_wire = b''.join(b'250' + (b' ' if i == len(exts) - 1 else b'-') + e.encode() + b'\r\n' for i, e in enumerate(exts))
     if cfg.get('prog') in ('auth', 'auth-late'):
         exts = exts + ['AUTH LOGIN PLAIN']
@@ -172,7 +172,12 @@ def session(cfg, sock):
             pre = '' if t == 0 else 't%d-' % (t + 1)
             if t == 1 and cfg.get('prog') == 'auth-late':
                 holders.append(('auth', c.auth('user', 'pw', mechanism=b'LOGIN')))
-            holders.append((pre + 'mail', c.mailfrom('s%d@x' % t)))
+            if cfg.get('size'):
+                # the server advertised SIZE 100, the caller announces a bigger message: the command goes out all the same and
+                # the reply that counts is the server's
+                holders.append((pre + 'mail', c.mailfrom('s%d@x' % t, data_size=1000)))
+            else:
+                holders.append((pre + 'mail', c.mailfrom('s%d@x' % t)))
             for i in range(cfg['n']):
                 # cfg['dup']: the same address in every RCPT command (legal; each gets its own reply and, in LMTP, its own
                 # end-of-data reply)
@@ -364,6 +369,14 @@ def esc_scripts(tier):
                     yield {'lmtp': lmtp, 'pipelining': pipelining, 'n': n, 'empty': False, 'classes': cls, 'lshift': 1, 'esc3': True}
 
 
+def size_scripts(tier):
+    """SIZE advertised, the client announces a message over the limit with MAIL"""
+    for lmtp in (False, True):
+        for pipelining in (True, False):
+            for cls in ('2232', '5232', '4252', '2235'):
+                yield {'lmtp': lmtp, 'pipelining': pipelining, 'n': 1, 'empty': False, 'classes': cls, 'lshift': 0, 'size': True}
+
+
 def auth_scripts(tier):
     for lmtp in (False, True):
         for pipelining in (True, False):
@@ -442,7 +455,7 @@ def configs(tier, seed):
 
 def run_config(cfg, tier, seed):
     res = Result()
-    for i, sc in enumerate(itertools.chain(scripts(tier), extra_scripts(tier), esc_scripts(tier), auth_scripts(tier), auth_late_scripts(tier), dup_scripts(tier), content_scripts(tier))):
+    for i, sc in enumerate(itertools.chain(scripts(tier), extra_scripts(tier), esc_scripts(tier), size_scripts(tier), auth_scripts(tier), auth_late_scripts(tier), dup_scripts(tier), content_scripts(tier))):
         if i % cfg['of'] != cfg['k']:
             continue
         script, outs = run_script(sc, tier, res)
